@@ -4,7 +4,7 @@ patch=$(realpath "$1"); shift
 cp -r /verif/evidence /tmp/evidence.bak.$$
 git -C /repo apply "$patch" || { echo "patch does not apply"; exit 2; }
 for p in "$@"; do
-  out=$(cd /verif && ./check $p --tier quick 2>&1 | grep -E "^VIOLATION|^KNOWN|quick:" | cut -c1-200)
+  out=$(cd /verif && ./check $p --tier quick 2>&1 | grep -E "^VIOLATION|quick:" | cut -c1-220)
   echo "[$p] $out" | tr '\n' ' '; echo
 done
 git -C /repo checkout -- . ; rm -rf /verif/evidence; mv /tmp/evidence.bak.$$ /verif/evidence; git -C /repo status --short | grep -v '^??' | head -3
